@@ -226,6 +226,7 @@ where
         let proved_accepted = bool_slice_to_labels(&proved_accepted_bool);
         let proved_refused = bool_slice_to_labels(&proved_refused_bool);
         std::mem::drop(computer);
+        self.buffered_encoder.skip_foreign_solver_vars();
         self.buffered_encoder.add_skeptical_computation(
             proved_accepted,
             proved_refused,
